@@ -5,16 +5,48 @@ TB_KANI = "Kani 0.68 / CBMC 6.11 / CaDiCaL; CBMC memory model (no Stacked/Tree B
 TB_VERUS = "Verus 0.2026.09.13 + Z3; rustc macro expansion (-Zunpretty=expanded, nightly) agrees with the stable compiler; k2v lowering rules (DESIGN 4.2)"
 TB_STD_SPECS = "assumed std contracts in /verif/verus/prelude.rs (raw-pointer relational axioms, overflowing_*, from_utf8_unchecked, valid_utf8 bridge)"
 
+NOTE_K = ("Kani harnesses run against a byte-identical scratch copy of /repo built as a dependency; bounded harnesses state their bound and are never "
+          "counted as proved; reference functions in the harness stand for std and are tied to the real std by SPEC.* harnesses (thorough tier)")
+NOTE_V = ("Verus verifies the rustc-expanded text of the real functions after the mechanical lowering of slice patterns (k2v); assumed contracts on "
+          "core (raw pointers, overflowing_*, from_utf8_unchecked) are listed in the evidence trusted_base")
+
+
+def _p(title, kani=None, verus=None, level="model_checking", level_text="", technique="", assumptions=None, unchecked=None, level_note=None):
+    return dict(title=title, kani=kani or [], verus=verus or [], level=level, level_text=level_text, technique=technique,
+                assumptions=assumptions or [], unchecked=unchecked or [],
+                level_note=level_note or (NOTE_V + "; " + NOTE_K if verus else NOTE_K))
+
+
 PROPS = {
-    "C04": dict(
-        title="Pattern search finds the same first / last occurrence as std",
-        kani=["c04"],
-        verus=["c04"],
-        level="proof",
-        assumptions=[
-            "naive first/last-occurrence reference is str::find/rfind (bounded differential harness c04_spec_vs_std, thorough tier)",
-            "reverse search with an empty pattern is not specified by the property and not checked",
-        ],
+    "C02": _p(
+        "Slice indexing and splitting functions agree with std slice indexing",
+        kani=["c02"], verus=["c02"], level="model_checking",
+        level_text="Kani: every getter/clamping/_mut/chunk/array-conversion function compared with the real std call by pointer and length, "
+                   "loop-free in the indices (all of usize), slice length <= 8, element types u16 and ()",
+        technique="Kani harnesses vs real std (complete in indices, bounded in slice length); Verus contracts on the expanded functions when present",
+    ),
+    "C03": _p(
+        "String slicing agrees with std str indexing, including char-boundary rules",
+        kani=["c03"], verus=["c03"], level="model_checking",
+        level_text="Kani: getters == str::get, boundary predicate == str::is_char_boundary, clamping variants return std's sub-string or the clamped one; "
+                   "must-panic / must-not-panic pair for indices inside a character; all valid UTF-8 strings <= 6 bytes, all usize indices",
+        technique="Kani harnesses vs real std with panic whitelisting; Verus two-contract split (f__ok / f__panics) when present",
+    ),
+    "C04": _p(
+        "Pattern search finds the same first / last occurrence as std",
+        kani=["c04"], verus=["c04"], level="model_checking",
+        level_text="Kani: forward/reverse search, contains, skip/keep, split_once against a first/last-occurrence reference, all byte values, hay <= 5, needle <= 3; "
+                   "four pattern kinds",
+        technique="Kani bounded harnesses against first/last-occurrence reference (tied to str::find/rfind); Verus loop invariants when present",
+        assumptions=["naive first/last-occurrence reference is str::find/rfind (SPEC harness c04_spec_vs_std, thorough tier)",
+                     "reverse search with an empty pattern is not specified by the property and not checked"],
+    ),
+    "C05": _p(
+        "Prefix/suffix tests, stripping and trimming agree with std",
+        kani=["c05"], verus=["c05"], level="model_checking",
+        level_text="Kani: starts/ends/strip vs prefix reference, whitespace trims vs <[u8]>::trim_ascii*, trim_*_matches vs maximal-whole-repetitions reference; all byte values, input <= 6-7 bytes",
+        technique="Kani bounded harnesses vs real std trim_ascii* and reference; Verus loop invariants when present",
+        assumptions=["two-sided trim_matches with an overlapping needle may remove the run from either end first; both orders are accepted"],
     ),
 }
 
@@ -22,4 +54,21 @@ NOT_APPLICABLE = {
     "C10": "quantifies over programs (all adapter chains of the iterator DSL); macro_rules! transcribers are not functions and carry no contract; the source iterators' next/next_back are under contract in C08/C09",
     "C17": "the observable is rustc's accept/reject verdict on a program; nothing executes, so there is no pre/postcondition to state",
     "C18": "proc-macro literal decoding (oracle = rustc's lexer, inputs are proc_macro::Literal) and per-invocation generated match arms; the run-time functions an expansion calls (Parser::skip/skip_back) are under contract in C13",
+}
+
+# properties whose check is not built yet (listed under not_applicable until it is)
+PENDING = {
+    "C01": "check under construction (unsafe-site inventory + V preconditions)",
+    "C06": "check under construction",
+    "C07": "check under construction",
+    "C08": "check under construction",
+    "C09": "check under construction",
+    "C11": "check under construction",
+    "C12": "check under construction",
+    "C13": "check under construction",
+    "C14": "check under construction",
+    "C15": "check under construction",
+    "C16": "check under construction",
+    "C19": "check under construction",
+    "C20": "check under construction",
 }
